@@ -40,19 +40,21 @@ class Exc(str):
 
 
 class Val:
-    __slots__ = ("taint", "kind", "lb", "exact", "types", "classes", "elem", "ilb", "cv", "kw")
+    __slots__ = ("taint", "kind", "lb", "exact", "types", "classes", "elem", "ilb", "cv", "kw", "may_none", "fields")
     NOCV = ("<no constant>",)
 
     def __init__(self, taint=False, kind="any", lb=0, exact=None, types=frozenset(), classes=frozenset(), elem=None,
-                 ilb=None, cv=NOCV, kw=None):
+                 ilb=None, cv=NOCV, kw=None, may_none=False, fields=None):
         self.taint, self.kind, self.lb, self.exact = taint, kind, lb, exact
         self.types, self.classes, self.elem = types, classes, elem
         self.ilb, self.cv, self.kw = ilb, cv, kw      # integer lower bound; known constant; **kwargs contents
+        self.may_none, self.fields = may_none, fields  # value may be None; known attribute values of a locally built object
 
     def key(self):
         return (self.taint, self.kind, self.lb, self.exact, self.types, self.classes, self.elem.key() if self.elem else None,
                 self.ilb, self.cv if isinstance(self.cv, (int, str, bool, type(None), tuple)) else None,
-                tuple((k, v.key()) for k, v in self.kw) if self.kw else None)
+                tuple((k, v.key()) for k, v in self.kw) if self.kw else None, self.may_none,
+                tuple((k, v.key()) for k, v in self.fields) if self.fields else None)
 
     def __eq__(self, o):
         return isinstance(o, Val) and self.key() == o.key()
@@ -71,7 +73,7 @@ class Val:
         return "<" + " ".join(bits) + ">"
 
     def but(self, **kw):
-        v = Val(self.taint, self.kind, self.lb, self.exact, self.types, self.classes, self.elem, self.ilb, self.cv, self.kw)
+        v = Val(self.taint, self.kind, self.lb, self.exact, self.types, self.classes, self.elem, self.ilb, self.cv, self.kw, self.may_none, self.fields)
         for k, x in kw.items():
             setattr(v, k, x)
         return v
@@ -82,7 +84,7 @@ def deep_taint(v: "Val") -> bool:
 
 
 CLEAN = Val()
-NONE = Val(kind="none", cv=None)
+NONE = Val(kind="none", cv=None, may_none=True)
 
 
 def join_val(a: Val, b: Val) -> Val:
@@ -92,8 +94,13 @@ def join_val(a: Val, b: Val) -> Val:
     elem = a.elem if a.elem == b.elem else (join_val(a.elem, b.elem) if a.elem and b.elem else (a.elem or b.elem))
     ilb = min(a.ilb, b.ilb) if a.ilb is not None and b.ilb is not None else None
     cv = a.cv if (a.cv == b.cv and type(a.cv) is type(b.cv)) else Val.NOCV
+    fields = None
+    if a.fields and b.fields:
+        fa, fb = dict(a.fields), dict(b.fields)
+        fields = tuple(sorted(((k, join_val(fa[k], fb[k])) for k in fa if k in fb), key=lambda kv: kv[0])) or None
     return Val(a.taint or b.taint, kind, min(a.lb, b.lb), a.exact if a.exact == b.exact else None,
-               a.types | b.types, a.classes | b.classes, elem, ilb, cv, a.kw if a.kw == b.kw else None)
+               a.types | b.types, a.classes | b.classes, elem, ilb, cv, a.kw if a.kw == b.kw else None,
+               a.may_none or b.may_none, fields)
 
 
 class St:
@@ -115,7 +122,7 @@ class Config:
     """Per-rule configuration of the analysis."""
 
     def __init__(self, env=False, sources=None, queue_producers=("data_received",), stop_at=(), receiver_types=None,
-                 include_cancel=False, assume_tainted_self_attrs=(), ret_sources=None, nonnull_attrs=()):
+                 include_cancel=False, assume_tainted_self_attrs=(), ret_sources=None, nonnull_attrs=(), self_attr_vals=None):
         self.env = env                                 # include environment raisers
         self.sources = sources or {}                   # {func qual: {param: Val}} extra taint sources (entry points)
         self.queue_producers = queue_producers
@@ -125,6 +132,7 @@ class Config:
         self.assume_tainted_self_attrs = set(assume_tainted_self_attrs)
         self.ret_sources = ret_sources or {}           # {func qual: Val} calls whose *result* is a taint source
         self.nonnull_attrs = set(nonnull_attrs)        # {(class qual, attr)}: verified "never None once reachable" invariants
+        self.self_attr_vals = self_attr_vals or {}     # {(class qual, attr): Val} peer-derived values held in instance attributes
 
 
 class Raises:
@@ -434,7 +442,12 @@ class FnAnalysis(Analysis):
                 st.env[k] = v
                 # storing a tainted value into an object taints the object (coarse object-sensitivity)
                 base = self.key_of(target.value)
-                if base and v.taint and base in st.env and not st.env[base].taint:
+                if base and base in st.env and isinstance(target.value, ast.Name) and base != self.recv:
+                    cur = st.env[base]
+                    fd = dict(cur.fields) if cur.fields else {}
+                    fd[target.attr] = v
+                    st.env[base] = cur.but(fields=tuple(sorted(fd.items(), key=lambda kv: kv[0])), taint=cur.taint or v.taint)
+                elif base and v.taint and base in st.env and not st.env[base].taint:
                     st.env[base] = st.env[base].but(taint=True)
         elif isinstance(target, ast.Subscript):
             k = self.key_of(target.value)
@@ -523,6 +536,14 @@ class FnAnalysis(Analysis):
                 if ts:
                     cur = st.env.get(k, CLEAN)
                     st.env[k] = cur.but(types=frozenset(ts), kind="obj")
+            return
+        if isinstance(test, ast.Compare) and len(test.ops) == 1 and isinstance(test.ops[0], (ast.Is, ast.IsNot)) \
+                and isinstance(test.comparators[0], ast.Constant) and test.comparators[0].value is None:
+            left = test.left.target if isinstance(test.left, ast.NamedExpr) else test.left
+            k = self.key_of(left)
+            not_none = isinstance(test.ops[0], ast.IsNot) == truth
+            if k and k in st.env and st.env[k].may_none and not_none:
+                st.env[k] = st.env[k].but(may_none=False, kind="any" if st.env[k].kind == "none" else st.env[k].kind)
             return
         if isinstance(test, ast.Compare) and len(test.ops) == 1:
             l, op, r = test.left, test.ops[0], test.comparators[0]
@@ -719,6 +740,14 @@ class FnAnalysis(Analysis):
         if k and k in st.env:
             return st.env[k]
         base = self.val(e.value, st)
+        if base.fields:
+            fd = dict(base.fields)
+            if e.attr in fd:
+                return fd[e.attr]
+        if self.recv and isinstance(e.value, ast.Name) and e.value.id == self.recv and self.self_cls is not None and self.R.cfg.self_attr_vals:
+            for k2 in self.prog.mro(self.self_cls):
+                if (k2.qual, e.attr) in self.R.cfg.self_attr_vals:
+                    return self.R.cfg.self_attr_vals[(k2.qual, e.attr)]
         # class attribute / nested class
         if base.kind == "cls" and base.classes:
             out = set()
@@ -863,8 +892,14 @@ class FnAnalysis(Analysis):
                 cv = Val.NOCV
         return Val(taint, kind, ilb=ilb, cv=cv)
 
+    def none_raiser(self, e, v: Val, what: str):
+        if v.may_none and v.taint:
+            self.raiser(e, "TypeError", f"{what} on a value that is None when the device omitted the field")
+
     def v_BinOp(self, e, st):
         a, b = self.val(e.left, st), self.val(e.right, st)
+        self.none_raiser(e, a, f"`{type(e.op).__name__}`")
+        self.none_raiser(e, b, f"`{type(e.op).__name__}`")
         if isinstance(e.op, (ast.Div, ast.FloorDiv, ast.Mod)) and b.taint and const_int(e.right) is None and b.kind != "str" and a.kind != "str":
             self.raiser(e, "ZeroDivisionError", "peer-controlled divisor")
         return self.binop_val(e.op, a, b)
@@ -881,9 +916,16 @@ class FnAnalysis(Analysis):
         return out
 
     def v_Compare(self, e, st):
-        t = self.val(e.left, st).taint
+        lv = self.val(e.left, st)
+        t = lv.taint
+        ordering = any(isinstance(o, (ast.Lt, ast.LtE, ast.Gt, ast.GtE)) for o in e.ops)
+        if ordering:
+            self.none_raiser(e, lv, "ordering comparison")
         for c in e.comparators:
-            t = self.val(c, st).taint or t
+            cv_ = self.val(c, st)
+            if ordering:
+                self.none_raiser(e, cv_, "ordering comparison")
+            t = cv_.taint or t
         return Val(t, "bool")
 
     def v_IfExp(self, e, st):
@@ -1067,6 +1109,17 @@ class FnAnalysis(Analysis):
                     outv = v if outv is None else join_val(outv, v)
                 if hit:
                     return outv
+            # nested class reached through an instance (self.PacketType(x))
+            if recv.types:
+                nested = set()
+                for q in recv.types:
+                    c = self.prog.classes.get(q)
+                    if c:
+                        for k2 in self.prog.mro(c):
+                            if f.attr in k2.nested:
+                                nested.add(k2.nested[f.attr].qual)
+                if nested:
+                    return self.construct(e, frozenset(nested), argv, kwv, st)
             # instance method through the receiver's classes
             if recv.types:
                 outv, hit = None, False
@@ -1139,8 +1192,7 @@ class FnAnalysis(Analysis):
 
     def call_repo(self, e, target: FuncInfo, owner, argv: List[Val], kwv, st) -> Val:
         self.R.calls_resolved += 1
-        if target.qual in self.R.cfg.ret_sources:
-            return self.R.cfg.ret_sources[target.qual]
+        override = self.R.cfg.ret_sources.get(target.qual)
         if target.qual in self.R.cfg.stop_at:
             self.R.note(f"{target.qual}: outside the analysed boundary (treated as opaque)")
             return Val(taint=any(v.taint for v in argv))
@@ -1177,8 +1229,8 @@ class FnAnalysis(Analysis):
                 self_cls = cands[0]
         rv, esc = self.R.summary(target, self_cls or target.cls, args, st.ctl, self.chain)
         self.pending += esc
-        if target.is_async and not isinstance(getattr(e, "_parent", None), ast.Await):
-            pass
+        if override is not None:
+            return override       # the body was analysed for its raisers; its result is the configured taint source
         return rv
 
     def construct(self, e, classes: frozenset, argv, kwv, st) -> Val:
@@ -1231,10 +1283,16 @@ class FnAnalysis(Analysis):
         if meth is None or ext:
             if name == "len":
                 return Val(a0.taint, "int", ilb=a0.lb)
+            if name in ("bytes", "bytearray") and argv and a0.kind == "list" and a0.elem is not None:
+                self.none_raiser(e, a0.elem, "bytes([...]) element")
+            if name in ("math.modf", "math.floor", "math.ceil", "round", "abs") and argv:
+                self.none_raiser(e, a0, name)
             if name in ("memoryview", "bytes", "bytearray"):
                 if argv and a0.kind in ("bytes", "any", "list") and (a0.taint or a0.kind == "bytes"):
                     return a0.but(kind="bytes")
                 return Val(any_taint, "bytes")
+            if name in ("int", "float") and argv:
+                self.none_raiser(e, a0, f"{name}()")
             if name == "int":
                 if argv and a0.taint and a0.kind in ("str", "bytes", "any"):
                     self.raiser(e, "ValueError", "int() of a peer-controlled string")
